@@ -5,6 +5,7 @@
 # Miscellaneous utilities used throughout the library's code.
 #
 import re
+from unicodedata import normalize
 
 from ural.patterns import PROTOCOL_RE
 
@@ -100,9 +101,23 @@ def normpath(urlpath, drop_consecutive_slashes=True):
 
 def attempt_to_decode_idna(string):
     try:
-        return string.encode("utf8").decode("idna")
+        decoded = string.encode("utf8").decode("idna")
     except UnicodeError:
         return string
+
+    # NOTE: the codec checks what it decoded against Unicode 3.2 only. It lets
+    # through U+3002, which IDNA reads as a label separator, and characters
+    # assigned since then whose compatibility form holds a url delimiter
+    # (U+FE13 is ":"), which urlsplit refuses in a netloc. Those stay encoded.
+    if u"\u3002" in decoded:
+        return string
+
+    normalized = normalize("NFKC", decoded)
+
+    if normalized != decoded and any(c in normalized for c in "/?#@:"):
+        return string
+
+    return decoded
 
 
 def decode_punycode_hostname(hostname, as_parts=False):
